@@ -20,6 +20,7 @@ extern void sim_point_c(int site_kind, int site_id);
 extern long sim_os_entropy(void *buf, size_t len, int mode);
 extern int sim_os_open(const char *path);
 extern int sim_os_close(int fd);
+extern int sim_os_dup(int fd, int minfd);
 extern int sim_trng_pre(void);
 extern void sim_trng_post(int ret, const unsigned char *buf);
 extern int sim_heap_call(void);
@@ -70,3 +71,13 @@ void verif_lib_free(void *p) { sim_heap_call(); free(p); }
 int verif_lib_posix_memalign(void **p, size_t a, size_t n) { if (sim_heap_call()) return ENOMEM; return posix_memalign(p, a, n); }
 void *verif_lib_aligned_alloc(size_t a, size_t n) { if (sim_heap_call()) return NULL; return aligned_alloc(a, n); }
 int verif_os_open64(const char *path, int flags, ...) { (void)flags; return sim_os_open(path); }
+
+#include <fcntl.h>
+int verif_os_fcntl(int fd, int cmd, ...) {
+    va_list ap; long arg;
+    va_start(ap, cmd); arg = va_arg(ap, long); va_end(ap);
+    if (cmd == F_DUPFD || cmd == F_DUPFD_CLOEXEC) return sim_os_dup(fd, (int)arg);
+    return 0; /* F_GETFD / F_SETFD / F_GETFL / F_SETFL on a simulated descriptor: accepted, no effect */
+}
+int verif_os_dup(int fd) { return sim_os_dup(fd, 0); }
+int verif_os_fcntl64(int fd, int cmd, ...) { va_list ap; long arg; va_start(ap, cmd); arg = va_arg(ap, long); va_end(ap); if (cmd == F_DUPFD || cmd == F_DUPFD_CLOEXEC) return sim_os_dup(fd, (int)arg); return 0; }
